@@ -74,9 +74,9 @@ where T: Types
         #[cfg(feature = "verif-hooks")]
         crate::verif_hooks::at("caller.disconnect", 0);
 
-        #[cfg(feature = "verif-hooks")]
-        crate::verif_hooks::at("caller.join", 0);
         if let Some(worker) = self.worker.take() {
+            #[cfg(feature = "verif-hooks")]
+            crate::verif_hooks::at("caller.join", 0);
             let _ = worker.join();
         }
     }
